@@ -1,12 +1,13 @@
 """The tiny task of check C10.  Its body appends B (begun) / E (completed) to a counter file and
 then succeeds, raises, or leaves through sys.exit / a BaseException, depending on `mode`
-(the environment variable VPK_C10_MODE, when set, overrides the parameter for one launch)."""
+(the environment variable VPK_C10_MODE, when set, overrides the parameter for one launch).
+A mode `<m>+<how>` makes the body fork first (see events.fork_child) and then go on as `<m>`."""
 import os
 import sys
 
 from experimaestro import Task, Param
 
-from vpk_c10.events import mark
+from vpk_c10.events import mark, fork_child
 
 
 class CrashTask(Task):
@@ -18,6 +19,10 @@ class CrashTask(Task):
         mark(self.counter, "B", "E BodyBegin")
         steps = 0
         for _ in range(2):
+            steps += 1
+        if "+" in mode:
+            mode, how = mode.split("+")
+            fork_child(self.counter, how)
             steps += 1
         if mode == "ok":
             mark(self.counter, "E", "E BodyEnd")
